@@ -45,7 +45,8 @@ def r1_lastkey(ck, F, R="C02-R1"):
     ck.floor(R, "index entries keyed by last key", n, 4, F.config)
     lk = F.body(A("bw_last_key"))
     e = lk.expr_at_return()
-    ck.ob(R, "last-key-getter", pure_option_view(e, "last_key"), f"BlockWriter::last_key returns {e.show()}", lk)
+    from .lastkey import LastKeyRepr
+    ck.ob(R, "last-key-getter", LastKeyRepr(F).getter_pure(lk), f"BlockWriter::last_key returns {e.show()}", lk)
 
 
 def r2_descent(ck, F, R="C02-R2"):
